@@ -41,7 +41,7 @@ Definition probe (c : cstmts * body) : option (N * nat * option (Z * N) * bool *
   | None => None
   | Some e => Some (guard_flags p, count_defined xi csub_table ilsub_table {fuel} p e seeds,
                     first_bad xi csub_table ilsub_table {fuel} p e seeds,
-                    tmp_def (rw_of (regs_ss xi p)) (decl_sorts_ss p ++ special_sorts) e,
+                    tmp_def ilsub_table e,
                     match wf_effect (rw_of (regs_ss xi p)) (decl_sorts_ss p ++ special_sorts) e with Some _ => true | None => false end,
                     wf_body b, linear b)
   end.
